@@ -15,7 +15,8 @@ RULE = ('random calls of write_main_dataset: data as numpy / dask / empty shape 
         'from the same or another file, wrong argument types, and prior group contents with clashing names of every '
         'kind (Position_*, Spectroscopic_*, the main name); after a rejection the corrected call is retried in the '
         'same group; non-trivial = the call is rejected, or >= 2 dimensions on a side')
-PRIOR = ['Position_Indices', 'Position_Values', 'Spectroscopic_Indices', 'Spectroscopic_Values', 'MAIN', 'unrelated']
+PRIOR = ['Position_Indices', 'Position_Values', 'Spectroscopic_Indices', 'Spectroscopic_Values', 'MAIN', 'unrelated',
+         'Spec_Y_Indices', 'Spec_Y_Values', 'My_Pos_Values', 'My_Pos_Indices', 'PosX_Indices', 'Same_Values', 'MA_IN']
 ERRORS = ['none', 'none', 'none', 'none', 'pos_size', 'spec_size', 'pos_type', 'spec_type', 'quantity_type', 'data_rank',
           'empty_no_dtype', 'data_type']
 
